@@ -14,7 +14,9 @@ DECIDED = ("R3.1 who-may-write: every raw-memory write in the crate (raw copy/wr
            "entry, the mapping allocated by the same installation, or the guard's saved address; R3.4 entry writes are at most 16 bytes; "
            "R3.6 exactly one mapping per installation (none on 32-bit ARM); R3.7 the release primitive is called only on the allocator's reject edge "
            "and in the guard's destructor, each time with the very mapping the injector obtained; R3.8 the guard stored by an installation "
-           "restores at the address, and as many bytes as, the installation wrote (removal touches the designated entry only)")
+           "restores at the address, and as many bytes as, the installation wrote (removal touches the designated entry only); R3.9 (Linux, Windows) "
+           "every protection change on an install or restore path requests a constant that keeps the page readable and executable - the page "
+           "also holds the entry's neighbours, which other threads may be executing while the patch is written")
 NOT_DECIDED = "effects inside the OS calls; identical-code folding by the linker (two functions sharing one address)"
 
 FFI_ALLOWED = {
@@ -69,7 +71,7 @@ def run(ck, models, tier):
                     if ev.kind in ("raw_write_other", "raw_store"):
                         ck.ob("R3.1", "%s/other-raw-write/%s" % (rn, short(ev.name)), tm.target, False,
                               "raw memory write %s outside the allow-list" % ev, where(ev))
-                    if ev.kind == "raw_read":
+                    if ev.kind in ("raw_read", "raw_slice"):     # a raw slice can only receive a copy_from_slice, which is classified above
                         covered_sites.add((fn_of_event(ev), ev.where()))
                 if tm.arch == "arm":
                     for ev, role, dst, real, alias in cw:
@@ -142,6 +144,25 @@ def run(ck, models, tier):
             elif kind == "indirect":
                 ck.ob("R3.1", "indirect-call/%s" % short(fn), tm.target, False, "indirect call in %s: callee unknown, could write anywhere" % short(fn), w)
         ck.floor("R3.1", "raw-copy-sites", n_raw, 2, tm.target)
+        # ---------------- R3.9 functions that were not named keep running: a protection change made on the way to (or back from) a patch never
+        # takes execute or read permission away from the page - the page also holds the entry's neighbours, and other threads are executing them
+        if tm.os in ("linux", "windows"):
+            n_prot = 0
+            fns_ = [p for p, _, _, _ in roots] + ([g.drop_fn] if g.drop_fn else [])
+            for p in fns_:
+                for v in tm.variants(p):
+                    for ev in v.trace:
+                        if ev.kind == "ffi" and ev.name in ("libc::mprotect", "injector_core::winapi::VirtualProtect"):
+                            n_prot += 1
+                            pv = ev.args[2]
+                            const_ = isinstance(pv, Int) and pv.is_const()
+                            val = pv.cval() if const_ else None
+                            keeps = const_ and ((val & 5) == 5 if tm.os == "linux" else val in (0x20, 0x40, 0x80))
+                            ck.ob("R3.9", "%s/%s/keeps-read-execute" % (tm.os, short(ev.name)), tm.target, keeps,
+                                  "protection change in %s (reached from %s) requests %s: the page %s readable and executable for the code around the entry" % (
+                                      short(fn_of_event(ev)), short(p), ("%#x" % val) if const_ else fmt(pv.e, 3) if isinstance(pv, Int) else pv,
+                                      "stays" if keeps else "does NOT provably stay"), where(ev))
+            ck.floor("R3.9", "protection-changes-checked", n_prot, 7, tm.target)
         # ---------------- R3.7 nothing but the injector's own mappings is ever unmapped
         release_rules(ck, tm, g, "R3.7")
         # ---------------- R3.8 removal touches the designated entry only: the guard restores where (and as much as) the install wrote
